@@ -51,6 +51,7 @@ var (
 	cBig        = simrt.RegisterCounter("probe_payload_over_200")
 	cLive       = simrt.RegisterCounter("probe_liveness_frames")
 	cEmptyPort0 = simrt.RegisterCounter("probe_port0_without_commands")
+	cResend     = simrt.RegisterCounter("probe_application_buffer_reused_for_next_frame")
 
 	fLoss     = simrt.RegisterCounter("fault_loss")
 	fDup      = simrt.RegisterCounter("fault_duplicate")
@@ -100,6 +101,8 @@ func classify(b []byte, pos int) string {
 
 // side is one party's view of one device session.
 type side struct {
+	appBuf       []byte // sender: the application buffer handed to the library last time (re-used for re-sends)
+	appTruth     []byte // what that buffer held when the application filled it
 	sess         pipe.Session
 	fcntUp       uint32 // device: next to send; NS: last accepted (for reconstruction)
 	nFCntDown    uint32 // NS: next to send; device: last accepted
@@ -476,8 +479,21 @@ func sendUplink(w *world, id int, r *sim.Rand, live bool) {
 	d := w.dev[id]
 	f := spec.GenFrame(r, true, d.sess.DevAddr, d.fcntUp, gen(true), 242)
 	tx := pipe.TxParams{ConfFCnt: d.lastConfDown, TxDR: uint8(r.Intn(16)), TxCh: uint8(r.Intn(72))}
+	// the application re-sends what is (as far as it knows) still in its
+	// buffer, under the next counter: the SAME slice goes into the new frame
+	if d.appBuf != nil && f.HasPort && f.FPort > 0 && r.Intn(3) == 0 {
+		f.AppBytes = append([]byte(nil), d.appTruth...)
+		simrt.Count(cResend)
+	} else if f.HasPort && f.FPort > 0 && len(f.AppBytes) > 0 {
+		d.appTruth = append([]byte(nil), f.AppBytes...)
+		d.appBuf = append([]byte(nil), f.AppBytes...)
+	}
 	noteFrame(f, &d.sess)
-	wire, stage, err := pipe.Seal(&d.sess, f.ToLib(), tx)
+	lib := f.ToLib()
+	if f.HasPort && f.FPort > 0 && len(f.AppBytes) > 0 && d.appBuf != nil && len(d.appBuf) == len(f.AppBytes) {
+		lib.MACPayload.(*lorawan.MACPayload).FRMPayload = []lorawan.Payload{&lorawan.DataPayload{Bytes: d.appBuf}}
+	}
+	wire, stage, err := pipe.Seal(&d.sess, lib, tx)
 	if err != nil {
 		simrt.Report("o3.sender:"+stage, fmt.Sprintf("spec-valid uplink %v refused at %s: %v", f, stage, err))
 		d.fcntUp++
